@@ -406,8 +406,11 @@ def module_work(name, mod, tier, rng, viols, cells, counters, samples, probe, ca
                     cand = candidates(name, gname, arg_for(rule, w))
                     if cand is not None and c in cand:
                         continue
-                    if r.upper() == c or (len(r) == 2 and r.isdigit() and c in 'XK' ):
+                    if r.upper() == c or (len(r) == 2 and r.isdigit() and c in 'XK'):
                         continue   # handled by the module's documented mapping of the two-digit value onto a letter
+                    ot = C.outcome(mod.validate, t)
+                    if ot[0] == 'ok' and isinstance(ot[1], str) and len(ot[1]) != len(t):
+                        continue   # read as a number of another length class (another scheme of the same module)
                     add(viols, 'C05|%s|%s|number-accepted-although-generator-yields-no-check-character' % (name, gname.split('[')[0]),
                         '%s accepts %r while %s(%r) = %r (no single check character): a valid number whose generated check differs from the one it carries' % (
                             name, t, gname, arg_for(rule, w), r),
